@@ -97,7 +97,10 @@ func runC04(c *eng.Ctx) {
 			}
 			c.Check(sameFile, fmt.Sprintf("reference-names-the-input[%d]", i), r.Instr, f, "the reference record names exactly the file that becomes an input", "")
 			fs := facts.At(r.Instr)
-			okFound := facts.Find(fs, "true", func(_ string, v ssa.Value) bool { e, ok := v.(*ssa.Extract); return ok && e.Index == 1 && instrIn(e.Tuple.(ssa.Instruction), get) }, nil)
+			okFound := facts.Find(fs, "true", func(_ string, v ssa.Value) bool {
+				e, ok := v.(*ssa.Extract)
+				return ok && e.Index == 1 && instrIn(e.Tuple.(ssa.Instruction), get)
+			}, nil)
 			c.Check(len(okFound) > 0, fmt.Sprintf("reference-only-for-existing-input[%d]", i), r.Instr, f, "a reference is recorded only for a file that exists in the source version (and is merged)", "")
 		}
 		add := c.One(f, eng.AnyCallTo(cmpT+".AddReferenceFiles"), "compaction.AddReferenceFiles(logs)")
@@ -136,7 +139,10 @@ func runC04(c *eng.Ctx) {
 			c.Check(!back, fmt.Sprintf("no-commit-after-clean[%d]", i), x.Instr, body, "the source commit is not after the cleaning", "")
 		}
 		// only targets whose work succeeded are cleaned
-		reg := p.Sites(body, func(p *eng.Prog, in ssa.Instruction) bool { mu, ok := in.(*ssa.MapUpdate); return ok && strings.Contains(mu.Map.Type().String(), "Family") })
+		reg := p.Sites(body, func(p *eng.Prog, in ssa.Instruction) bool {
+			mu, ok := in.(*ssa.MapUpdate)
+			return ok && strings.Contains(mu.Map.Type().String(), "Family")
+		})
 		for i, r := range reg {
 			ok, why := eng.OkDominates(body, work.Instr, r.Instr)
 			c.Check(ok, fmt.Sprintf("clean-only-successful-targets[%d]", i), r.Instr, body, "a target is scheduled for reference cleaning only when its work succeeded", why)
